@@ -77,3 +77,49 @@ fn c04_q_filters_any_date() {
     kani::cover!(d.year() < 0, "negative year reachable");
     kani::cover!(d.year() > 100_000, "far future reachable");
 }
+
+/// `(sunset+12:00)-26:00`: the projection of a time span whose start is pushed past 24:00 by an event
+/// offset: any event, any i16 offsets, any fixed end 00:00..=48:00, no location.
+// NOT REGISTERED: the projection goes through Vec / ranges_union (container code), CBMC does not finish in 300 s;
+// decided by engine S instead (c01 templates `one_eventfree_*`).
+#[allow(dead_code)]
+fn disabled_c04_q_timespan_any_offset() {
+    use opening_hours::verif_hooks as vh;
+    use opening_hours_syntax::rules::time::{Time, TimeEvent, TimeSelector, TimeSpan, VariableTime};
+    use opening_hours_syntax::ExtendedTime;
+    let ev = |k: u8| match k {
+        0 => TimeEvent::Dawn,
+        1 => TimeEvent::Sunrise,
+        2 => TimeEvent::Sunset,
+        _ => TimeEvent::Dusk,
+    };
+    let k1: u8 = kani::any();
+    let k2: u8 = kani::any();
+    kani::assume(k1 < 4 && k2 < 4);
+    let o1: i16 = kani::any();
+    let o2: i16 = kani::any();
+    // offsets are written +-HH:MM with HH:MM a valid hour_minutes: |offset| <= 24:00
+    kani::assume(-1440 <= o1 && o1 <= 1440 && -1440 <= o2 && o2 <= 1440);
+    let end_mins: u16 = kani::any();
+    kani::assume(end_mins <= 2880);
+    let fixed_end: bool = kani::any();
+    let end = if fixed_end { Time::Fixed(ExtendedTime::from_mins_from_midnight(end_mins).unwrap()) } else { Time::Variable(VariableTime { event: ev(k2), offset: o2 }) };
+    let span = TimeSpan { range: Time::Variable(VariableTime { event: ev(k1), offset: o1 })..end, open_end: false, repeats: None };
+    let sel = TimeSelector { time: vec![span] };
+    let d = chrono::NaiveDate::from_ymd_opt(2024, 6, 12).unwrap();
+    let today = vh::time_selector_intervals_at(&Context::default(), &sel, d);
+    kani::cover!(today.len() == 1, "a projected range is reachable");
+    kani::cover!(o1 > 600, "start pushed past 24:00 reachable");
+    std::mem::forget(today);
+    std::mem::forget(sel);
+}
+
+
+/// The month length used by the weekday selectors never panics and is the arithmetic month length on
+/// every supported date (the weekday harnesses above replace it by that specification).
+#[kani::proof]
+fn c04_q_count_days_in_month_total() {
+    let d = any_date();
+    assert_eq!(opening_hours::verif_hooks::count_days_in_month(d), month_len(d.year(), d.month()));
+    kani::cover!(d.year() % 400 == 0 && d.month() == 2, "February of a year divisible by 400 reachable");
+}
